@@ -9,6 +9,7 @@ CONSTANTS
  SkipFlag = TRUE
  CheckC20 = FALSE
  EmptyBlockFlushes = TRUE
+ EmptyLooksAtChildren = TRUE
  WalkerCapturesNext = TRUE
 SPECIFICATION MSpec
 INVARIANTS Inv_C02_TextInDocOrderOnce Inv_C04_NoHiddenOrSkipped Inv_C07_TagsBalanced Inv_C07_ChainsMirrorSource Inv_C03_SimpleParaWhole Inv_StepEqualsRun
